@@ -22,10 +22,10 @@ type Profile struct {
 	RawRemove bool
 }
 
-var opNames = []string{"write", "read", "usnap", "asnap", "remove", "rawremove", "markremoved", "revert", "reopen", "reload", "resize", "setcp"}
+var opNames = []string{"write", "read", "usnap", "asnap", "remove", "rawremove", "markremoved", "revert", "reopen", "reload", "resize", "setcp", "lunmap"}
 
 func Profiles(prop string) Profile {
-	base := map[string]int{"write": 40, "read": 12, "usnap": 7, "asnap": 7, "remove": 5, "rawremove": 3, "markremoved": 2, "revert": 3, "reopen": 5, "reload": 1, "resize": 1, "setcp": 4}
+	base := map[string]int{"write": 40, "read": 12, "usnap": 7, "asnap": 7, "remove": 5, "rawremove": 3, "markremoved": 2, "revert": 3, "reopen": 5, "reload": 1, "resize": 1, "setcp": 4, "lunmap": 2}
 	cp := func(over map[string]int) map[string]int {
 		m := map[string]int{}
 		for k, v := range base {
@@ -38,7 +38,7 @@ func Profiles(prop string) Profile {
 	}
 	switch prop {
 	case "C06":
-		return Profile{Prop: prop, PunchPct: 80, W: cp(map[string]int{"write": 45, "usnap": 9, "asnap": 9, "rawremove": 0, "remove": 6, "reload": 2}), MinOps: 15, MaxOps: 60, DeepPct: 100}
+		return Profile{Prop: prop, PunchPct: 80, W: cp(map[string]int{"write": 45, "usnap": 9, "asnap": 9, "rawremove": 0, "remove": 12, "setcp": 9, "reload": 2, "lunmap": 4}), MinOps: 15, MaxOps: 60, DeepPct: 100}
 	case "C11":
 		return Profile{Prop: prop, PunchPct: 50, W: cp(map[string]int{"write": 30, "usnap": 9, "asnap": 10, "remove": 12, "markremoved": 6, "rawremove": 0, "setcp": 8, "revert": 1}), MinOps: 20, MaxOps: 60, DeepPct: 100}
 	case "C16":
@@ -93,8 +93,31 @@ func (e *Engine) owners() []int {
 func (e *Engine) GenRange() (int64, int64, string) {
 	nb := int(e.M.Size / Block)
 	r := e.R
-	cls := r.Pick([]int{10, 12, 18, 12, 14, 8, 26})
+	cls := r.Pick([]int{10, 12, 18, 12, 14, 8, 26, 12})
 	switch cls {
+	case 7: // overwrite blocks owned by a user-created snapshot (the protected boundary of reclamation)
+		own := e.owners()
+		var cands []int
+		newest := -1
+		for i, c := range e.M.Chain {
+			if c.User {
+				newest = i
+			}
+		}
+		for b := 0; b < nb; b++ {
+			if own[b] >= 0 && own[b] < len(e.M.Chain) && (own[b] == newest || e.M.Chain[own[b]].User && r.Chance(30)) {
+				cands = append(cands, b)
+			}
+		}
+		if len(cands) == 0 {
+			return int64(r.Intn(nb)) * Block, Block, "block"
+		}
+		b := cands[r.Intn(len(cands))]
+		l := r.Range(1, 3)
+		if b+l > nb {
+			l = nb - b
+		}
+		return int64(b) * Block, int64(l) * Block, "userblock"
 	case 0: // single sector inside a block
 		b := r.Intn(nb)
 		return int64(b)*Block + int64(r.Intn(8))*Sector, Sector, "sector"
@@ -255,16 +278,15 @@ func (e *Engine) Step(p Profile) bool {
 	case "read":
 		o, l, _ := e.GenRange()
 		e.Read(o, l)
-	case "usnap":
+	case "usnap", "asnap":
 		if n >= 10 {
 			return false
 		}
-		e.Snapshot(true)
-	case "asnap":
-		if n >= 10 {
-			return false
+		e.Snapshot(k == "usnap")
+		// the controller records the newest common snapshot as checkpoint
+		if !e.Dead && (p.Prop == "C06" || p.Prop == "C11") && e.R.Chance(50) {
+			e.SetCheckpoint(e.M.Chain[len(e.M.Chain)-1].Name)
 		}
-		e.Snapshot(false)
 	case "setcp":
 		if n == 0 {
 			return false
@@ -320,6 +342,8 @@ func (e *Engine) Step(p Profile) bool {
 		e.Reopen(e.R.Bool())
 	case "reload":
 		e.Reload()
+	case "lunmap":
+		e.LunMap()
 	case "resize":
 		if e.M.Size/Block > 600 {
 			return false
@@ -360,6 +384,11 @@ func RunStd(e *Engine, p Profile) {
 		if len(e.Log) > before {
 			last = e.Log[before].K
 		}
+		if last == "lunmap" {
+			e.Check(true)
+			since = 0
+			continue
+		}
 		mut := last != "write" && last != "read" && last != "" && last != "setcheckpoint" && last != "markremoved"
 		if mut || since >= 8 {
 			e.Check(r.Chance(p.DeepPct))
@@ -372,6 +401,7 @@ func RunStd(e *Engine, p Profile) {
 // RunWorker runs `cases` histories for one property and writes the result.
 func RunWorker(prop string, seed uint64, worker, cases int, scratch, out string) error {
 	RaiseFdLimit()
+	QuietLogs()
 	StartHolePuncher()
 	res := vk.NewResult("reng")
 	p := Profiles(prop)
